@@ -36,7 +36,7 @@ DEFAULT_SPEC = {
     "polya": 1,            # fraction style: 1 = most reads have tails, 0 = none
     "dup_records": 0,      # exact duplicate records
     "pre_ids": 0,          # annotation contains IsoQuant-style ids and exon_id attributes
-    "gtf_meta": 1,         # gene/transcript records present
+    "gtf_meta": 1,         # gene/transcript records present (2: missing for every third gene)
     "equal_len": 0,        # make two chromosomes equally long
     "chr_order": 0,        # permutation index for chromosome length ranking (pads tails)
     "tie_perm": 0,         # permutation seed for record order among equal positions
@@ -904,7 +904,9 @@ def _gtf_lines(truth):
                 gid = "novel_gene_%s_%d" % (chrom, 300 + n)
             n += 1
             g.out_gid = gid
-            if s["gtf_meta"]:
+            # gtf_meta 2: every third gene comes without its gene and transcript records (exons only)
+            meta_here = bool(s["gtf_meta"]) and not (s["gtf_meta"] == 2 and n % 3 == 1)
+            if meta_here:
                 lines.append((chrom, "gene", a, b, g.strand, 'gene_id "%s";' % gid))
             g.out_tids = []
             for k, (tid, idx) in enumerate(g.isoforms):
@@ -928,7 +930,7 @@ def _gtf_lines(truth):
                 used_tids.add(otid)
                 first_on_chr = False
                 g.out_tids.append(otid)
-                if s["gtf_meta"]:
+                if meta_here:
                     lines.append((chrom, "transcript", ex[0][0], ex[-1][1], g.strand,
                                   'gene_id "%s"; transcript_id "%s";' % (gid, otid)))
                 for (ea, eb) in ex:
